@@ -93,15 +93,13 @@ theorem roIdIs_metadataLoop {T : Option String} (cs ss : List Xml) (h : RoIdIs T
       exact ih _ step hs'
 
 theorem roIdIs_mergeRc {T : Option String} (k : Kind) (rc base : Xml) (mid : Option PyExc)
-    (hw : WfKids "story" rc.kids = true)
-    (hwi : ∀ s ∈ rc.kids, s.tag = "story" → WfKids "item" s.kids = true)
     (h : RoIdIs T rc.kids)
     (h3 : k = .MetaDataReplace → ∀ s ∈ base.kids, s.tag = "roID" → s.text = T) :
     RoIdIs T (mergeRc k rc base mid).kids := by
   by_cases hsl : k.isStoryLevel = true
-  · exact roIdIs_of_edit h (storyLevel_edit k rc base mid hsl hw)
+  · exact roIdIs_of_edit h (storyLevel_edit k rc base mid hsl)
   · by_cases hil : k.isItemLevel = true
-    · exact roIdIs_of_itemEdit h (itemLevel_edit k rc base mid hil hw hwi)
+    · exact roIdIs_of_itemEdit h (itemLevel_edit k rc base mid hil)
     · cases k <;> first | (simp [Kind.isStoryLevel] at hsl; done) | (simp [Kind.isItemLevel] at hil; done) | skip
       case MetaDataReplace =>
         simp only [mergeRc]
